@@ -132,6 +132,9 @@ pub enum XmlMode {
     Plain,
     Identity,
     AppendComment,
+    /// the transformer hands back XML without the final line break (and one with trailing blanks)
+    TrimEnd,
+    TrailingBlanks,
 }
 
 #[derive(Clone, Debug)]
@@ -147,6 +150,8 @@ pub struct Scene {
     pub stop_on_err: bool,
     /// selects how the data sources handed to add_blob / add_* deliver their bytes (whole, in pieces ...)
     pub src_salt: u8,
+    /// some blobs are first offered through a source that fails half-way (the call must fail), then added again
+    pub failing_sources: bool,
 }
 
 /// A data source for blobs, images and masks that delivers its bytes the way pipes, decoders and chained
@@ -158,16 +163,29 @@ pub struct PieceReader<'a> {
     pos: usize,
     mode: u8,
     calls: u32,
+    fail_at: Option<usize>,
 }
 impl<'a> PieceReader<'a> {
     pub fn new(data: &'a [u8], salt: u8) -> Self {
-        PieceReader { data, pos: 0, mode: ((data.len() as u64 + salt as u64 * 3) % 5) as u8, calls: 0 }
+        PieceReader { data, pos: 0, mode: ((data.len() as u64 + salt as u64 * 3) % 5) as u8, calls: 0, fail_at: None }
+    }
+    /// delivers `k` bytes, then reports an I/O error
+    pub fn failing(data: &'a [u8], salt: u8, k: usize) -> Self {
+        let mut p = Self::new(data, salt);
+        p.fail_at = Some(k);
+        p
     }
 }
 impl<'a> Read for PieceReader<'a> {
     fn read(&mut self, buf: &mut [u8]) -> std::io::Result<usize> {
         self.calls += 1;
-        let left = self.data.len() - self.pos;
+        let mut left = self.data.len() - self.pos;
+        if let Some(k) = self.fail_at {
+            if self.pos >= k {
+                return Err(std::io::Error::new(std::io::ErrorKind::Other, "data source failed"));
+            }
+            left = left.min(k - self.pos);
+        }
         let want = buf.len().min(left);
         let n = match self.mode {
             0 => want,                                              // whole
@@ -1254,14 +1272,17 @@ pub fn gen_scene(r: &mut Rng, k: &Knobs, cover: &mut crate::Cover) -> Scene {
         coord: if r.chance(1, 2) { Some(if r.chance(4, 5) { Some(gen_string(r, k, cover, "root.coord")) } else { None }) } else { None },
         creation: if r.chance(1, 2) { Some(if r.chance(4, 5) { Some(gen_datetime(r, wild)) } else { None }) } else { None },
         items,
-        xml_mode: match r.usize(3) {
+        xml_mode: match r.usize(5) {
             0 => XmlMode::Plain,
             1 => XmlMode::Identity,
-            _ => XmlMode::AppendComment,
+            2 => XmlMode::AppendComment,
+            3 => XmlMode::TrimEnd,
+            _ => XmlMode::TrailingBlanks,
         },
         no_finalize: false,
         stop_on_err: false,
         src_salt: 0,
+        failing_sources: false,
     }
 }
 
@@ -1519,6 +1540,18 @@ pub fn run_scene(scene: &Scene, dev: Dev, judge: Judge) -> RunResult {
                 }
             }
             Item::Blob(data) => {
+                if scene.failing_sources && data.len() > 8 && data.len() % 3 == 1 {
+                    // the application's source breaks after an odd number of bytes; the call fails, the application
+                    // carries on and adds the data again from a working source
+                    let k = (data.len() / 2) | 1;
+                    let mut bad = PieceReader::failing(data, scene.src_salt, k);
+                    let r = call!("add_blob(failing source)", w.add_blob(&mut bad));
+                    match r {
+                        Ok(Ok(b)) => res.violations.push(viol("C06", "add_blob/ok-despite-failing-source".into(), format!("add_blob returned Ok (length {}) although its source failed after {} of {} bytes", b.length, k, data.len()))),
+                        Ok(Err(_)) => {}
+                        Err(_) => return res,
+                    }
+                }
                 let mut rd = PieceReader::new(data, scene.src_salt);
                 let r = call!("add_blob", w.add_blob(&mut rd));
                 match r {
@@ -1723,6 +1756,22 @@ pub fn run_scene(scene: &Scene, dev: Dev, judge: Judge) -> RunResult {
             w.finalize_customized_xml(|x| {
                 *recorded.borrow_mut() = Some(x.clone());
                 Ok(x)
+            })
+        ),
+        XmlMode::TrimEnd => call!(
+            "E57Writer::finalize_customized_xml",
+            w.finalize_customized_xml(|x| {
+                let y = x.trim_end().to_string();
+                *recorded.borrow_mut() = Some(y.clone());
+                Ok(y)
+            })
+        ),
+        XmlMode::TrailingBlanks => call!(
+            "E57Writer::finalize_customized_xml",
+            w.finalize_customized_xml(|x| {
+                let y = format!("{}<!-- no line break behind this -->   ", x.trim_end());
+                *recorded.borrow_mut() = Some(y.clone());
+                Ok(y)
             })
         ),
         XmlMode::AppendComment => call!(
